@@ -1,5 +1,6 @@
 import Woodpile.Driver.Util
 import Woodpile.Model.VouchedTime
+import Woodpile.Model.VouchedTimeApi
 
 /-! Model driver for family `vtime` (C14): `VouchedTime::{check,new,get_local_time,now}`
 and the raffle arithmetic.  Numbers are decimal; local times are signed
@@ -72,6 +73,20 @@ def step (_ : Unit) : List String → Unit × List String
   | ["nowat", clock, base, voucher] =>
     match clock.toInt?, parseU64 base, parseU64 voucher with
     | some clock, some b, some v => ((), [fmtNew (now prodCfg clock (fun _ => some (b, v)))])
+    | _, _, _ => ((), ["bad-op"])
+  -- the `_or_die` constructors (track apigaps): same inputs, an `Err` becomes a panic
+  | ["new_or_die", ns, base, voucher] =>
+    match ns.toInt?, parseU64 base, parseU64 voucher with
+    | some ns, some b, some v => ((), [fmtNew (newOrDie prodCfg ns b v)])
+    | _, _, _ => ((), ["bad-op"])
+  | ["now_or_die", _, _] => ((), ["now"])
+  | ["nowat_or_die", clock, "fail"] =>
+    match clock.toInt? with
+    | some clock => ((), [fmtNew (nowOrDie prodCfg clock (fun _ => none))])
+    | none => ((), ["bad-op"])
+  | ["nowat_or_die", clock, base, voucher] =>
+    match clock.toInt?, parseU64 base, parseU64 voucher with
+    | some clock, some b, some v => ((), [fmtNew (nowOrDie prodCfg clock (fun _ => some (b, v)))])
     | _, _, _ => ((), ["bad-op"])
   | _ => ((), ["bad-op"])
 
